@@ -106,6 +106,19 @@ func streamKeys(c *ctx) {
 		wy[len(wy)-1] ^= 1
 		wrongY[iana.EC2KeyParameterY] = wy
 		variants["private+wrong-y"] = wrongY
+		// the coordinates of another key pair: a point of the curve, but not d*G
+		{
+			d2 := new(big.Int).Add(d, big.NewInt(int64(1+c.r.intn(1000))))
+			fx, fy := a.curve.ScalarBaseMult(d2.Bytes())
+			foreign := cloneKey(withXY)
+			foreign[iana.EC2KeyParameterX], foreign[iana.EC2KeyParameterY] = fx.FillBytes(make([]byte, a.size)), fy.FillBytes(make([]byte, a.size))
+			variants["private+wrong-foreign-point"] = foreign
+			fonly := cloneKey(withXY)
+			fonly[iana.EC2KeyParameterY] = fy.FillBytes(make([]byte, a.size))
+			fonly[iana.EC2KeyParameterX] = fx.FillBytes(make([]byte, a.size))
+			delete(fonly, iana.KeyParameterKid)
+			variants["private+wrong-foreign-point-no-kid"] = fonly
+		}
 		// a coordinate that is only a suffix of the true one, or the true one behind other octets: another integer
 		suf := cloneKey(withXY)
 		suf[iana.EC2KeyParameterX] = xFull[2:]
